@@ -338,7 +338,26 @@ impl<'a> GenLin<'a> {
         ax::Statement::Exit(st::Exit { var: env[i].var.clone() })
     }
 
+    /// a call of a *new* definition whose parameters are exactly the current environment: a bare
+    /// `call` without any substitution (also directly inside a clause of a switch / closure)
+    fn gen_bare_call(&mut self, env: &Env) -> Option<ax::Statement> {
+        if self.sigs.len() >= 9 || env.len() > 10 {
+            return None;
+        }
+        let params: Vec<ax::ContextBinding> =
+            env.iter().map(|b| ax::ContextBinding { var: self.fresh("q"), chi: b.chi.clone(), ty: b.ty.clone() }).collect();
+        let name = ident(&format!("g{}", self.sigs.len()), 0);
+        self.sigs.push(DefSig { name: name.clone(), params });
+        self.stats.calls += 1;
+        Some(ax::Statement::Call(st::Call { label: name, args: ctx(vec![]) }))
+    }
+
     fn gen_call(&mut self, mut env: Env) -> Option<ax::Statement> {
+        if self.c.prob(70) {
+            if let Some(s) = self.gen_bare_call(&env) {
+                return Some(s);
+            }
+        }
         // only later definitions are called (no recursion)
         if self.cur_def + 1 >= self.sigs.len() {
             return None;
@@ -629,7 +648,9 @@ impl<'a> GenLin<'a> {
         }
         self.sigs = sigs;
         let mut defs = vec![];
-        for i in 0..self.sigs.len() {
+        // definitions may be added while bodies are generated (gen_bare_call)
+        let mut i = 0;
+        while i < self.sigs.len() {
             self.cur_def = i;
             self.nonzero.clear();
             self.floor = if self.cfg.wide > 0 && self.c.prob(self.cfg.wide) {
@@ -642,6 +663,7 @@ impl<'a> GenLin<'a> {
             let size = if i == 0 { self.cfg.size } else { self.cfg.size / 2 };
             let body = self.gen_stmt(env.clone(), size);
             defs.push(ax::Def { name: self.sigs[i].name.clone(), context: ctx(env), body });
+            i += 1;
         }
         ax::Prog { defs, types: self.types.clone(), max_id: self.next_id }
     }
